@@ -378,6 +378,8 @@ def finding_matches(fd, prop, b):
 
 def run_stage(ctx, stage):
     prop = ctx["prop"]
+    if stage.get("skip_in_quick") and ctx["tier"] == "quick":
+        return
     log("stage %s" % stage.get("name", "main"))
     cases = generate_cases(ctx, stage) if stage.get("gen") else []
     if stage.get("cases_py"):
